@@ -52,7 +52,10 @@ func newStub(plan *StubPlan, cc craftCtx) *stub {
 }
 
 var decoyKindsV1 = []string{"zeros:-1", "zeros:-1", "zeros:-2", "zeros:-3"}
-var decoyKindsV2 = []string{"zeros:-2", "zeros:-2", "above", "above", "Q+1", "zeros:-3"}
+
+// decoys are crafted lazily on the goroutines of the code under test, so they must not touch math/big or fmt: both use
+// sync.Pool, whose synchronisation would order the workers for the race detector (and hide races between them)
+var decoyKindsV2 = []string{"zeros:-2", "zeros:-2", "zeros:-1", "zeros:-1", "zeros:-3", "zeros:-2"}
 
 func (s *stub) decoy(nonce uint64) []int8 {
 	if s.plan.DecoyPerMille == 0 {
@@ -99,8 +102,37 @@ func (s *stub) Trits(nonce uint64) []int8 {
 	return out
 }
 
-// fill overwrites the 243-entry bit planes of the batch starting at nonce.
-func (s *stub) fill(l, h *[ref.HashLen]uint, nonce uint64) {
+// fill overwrites the 243-entry bit planes of the batch starting at nonce. lanes, if not nil, gives the nonce each
+// lane's INPUT buffer actually encodes (decoded from what the worker is about to hash): the oracle is a function of
+// what was hashed, so a lane fed with a stale or wrong nonce gets the hash of THAT nonce.
+func (s *stub) fill(l, h *[ref.HashLen]uint, nonce uint64, lanes *[64]uint64) {
+	if lanes != nil {
+		regular := true
+		for j := uint64(0); j < 64; j++ {
+			if lanes[j] != nonce+j {
+				regular = false
+				break
+			}
+		}
+		if !regular {
+			for i := 0; i < ref.HashLen; i++ {
+				l[i], h[i] = ^uint(0), ^uint(0)
+			}
+			for j := 0; j < 64; j++ {
+				t := s.Trits(lanes[j])
+				m := uint(1) << uint(j)
+				for i := 0; i < ref.HashLen; i++ {
+					switch t[i] {
+					case 1:
+						l[i] &^= m
+					case -1:
+						h[i] &^= m
+					}
+				}
+			}
+			return
+		}
+	}
 	blk, off := nonce>>6, nonce&63
 	for i := 0; i < ref.HashLen; i++ {
 		l0, h0 := s.bg(blk, i)
@@ -131,6 +163,39 @@ func (s *stub) fill(l, h *[ref.HashLen]uint, nonce uint64) {
 			}
 		}
 	}
+}
+
+// b1t6 code words of all byte values, for decoding the nonce a lane's input buffer carries
+var b1t6Table = func() (t [256][6]int8) {
+	for v := 0; v < 256; v++ {
+		copy(t[v][:], ref.B1T6([]byte{byte(v)}))
+	}
+	return
+}()
+
+// decodeLaneNonce reads the 48 nonce trits (8 b1t6 groups, little-endian bytes) of an input buffer.
+func decodeLaneNonce(trits []int8, expect uint64) (uint64, bool) {
+	var n uint64
+	for p := 0; p < 8; p++ {
+		g := trits[6*p : 6*p+6]
+		want := b1t6Table[byte(expect>>(8*uint(p)))]
+		if g[0] == want[0] && g[1] == want[1] && g[2] == want[2] && g[3] == want[3] && g[4] == want[4] && g[5] == want[5] {
+			n |= uint64(byte(expect>>(8*uint(p)))) << (8 * uint(p))
+			continue
+		}
+		found := false
+		for v := 0; v < 256 && !found; v++ {
+			c := b1t6Table[v]
+			if g[0] == c[0] && g[1] == c[1] && g[2] == c[2] && g[3] == c[3] && g[4] == c[4] && g[5] == c[5] {
+				n |= uint64(v) << (8 * uint(p))
+				found = true
+			}
+		}
+		if !found {
+			return expect, false
+		}
+	}
+	return n, true
 }
 
 func randTrit(r *rand.Rand) int8 { return int8(r.IntN(3)) - 1 }
